@@ -52,6 +52,13 @@ func genC15(r *simrt.Rand, tier string) (Cfg, *Program) {
 		pf.Waiters, pf.WaitOps = [2]int{1, 1}, [2]int{2, 5}
 		pf.Wait = []wop{{opWUFw, 1}}
 	}
+	if !static && r.Chance(15) {
+		// pauses while several queues are backlogged: a selection that was made and then
+		// abandoned because of the pause must not cost the selected queue its turn
+		pf.Ctrl = []wop{{opPause, 3}, {opResume, 4}, {opSettle, 1}}
+		pf.CtrlOps = [2]int{2, 6}
+		pf.CtrlGapPct = 40
+	}
 	if r.Chance(20) {
 		// a queue handle is closed (often an empty, drained one): the others keep their order
 		pf.Cancellers, pf.CancelOps = [2]int{1, 1}, [2]int{1, 2}
